@@ -21,6 +21,7 @@ import Gzx.Proofs.AztecLayoutSizes6
 import Gzx.Proofs.AztecLayoutSizes7
 import Gzx.Proofs.AztecLayoutSizes8
 import Gzx.Proofs.AztecFull
+import Gzx.Proofs.AztecModeRS
 namespace Gzx.Properties.C11
 open Gzx Gzx.AztecDecoder Gzx.Ref.Aztec Gzx.AztecLink Gzx.AztecStuff Gzx.AztecHL Gzx.AztecMode
 open Gzx.Properties.C04 (hamming)
@@ -533,6 +534,53 @@ theorem mode_bits_inv (compact : Bool) (mm : List Bool)
   cases compact with
   | true => simp only [if_true] at h ⊢; exact rotation_params_compact mm h s hs
   | false => simp only [Bool.false_eq_true, if_false] at h ⊢; exact rotation_params_full mm h s hs
+
+/-- **Mode message, FULL** (`mode_message_inv` with the C04 Reed-Solomon decoder over GF(16),
+    `GenericGF_AZTEC_PARAM`, plugged in; no Reed-Solomon hypothesis left): for every size and data word count the
+    mode message allows and each of the four rotations, the detector's integer tail — `getRotation`, parameter
+    bit flattening, `getCorrectedParameterData` (2+5 or 4+6 four-bit words), field split — applied to an ideal
+    sampling of the reference core ring finds the rotation and returns (layers, data words).
+    (The 4-bit words cut from the reference mode message are header nibbles ++ `rsParity 4 …`, a code word of
+    C04's code: `AztecModeRS.paramWords_ref`, `AztecRS.rsParity_codeword`.)  Locating and sampling the ring is
+    float detector code: correspondence / oracle only. -/
+theorem mode_message_full (E : List Nat) (hE : E = refExpectedCornerBits)
+    (compact : Bool) (layers dw s : Nat)
+    (hl : 1 ≤ layers ∧ layers ≤ (if compact then 4 else 32))
+    (hd : 1 ≤ dw ∧ dw ≤ (if compact then 64 else 2048)) (hs : s < 4) :
+    getRotation E (sidesAt compact (modeMessage compact layers dw) s) (if compact then 10 else 14) =
+      .ok s ∧
+    correctedParameters rsModel compact
+      (parameterData compact (sidesAt compact (modeMessage compact layers dw) s) s) =
+      .ok (layers, dw) :=
+  mode_message_inv E hE rsModel compact layers dw s hl hd hs (AztecModeRS.mode_rs_clean compact layers dw)
+
+/-- **Mode message error tolerance**: let `mm'` be ANY 28/40-bit string on the core ring whose 4-bit words
+    differ from those of the reference mode message in at most 2 (compact: 5 check words) / 3 (full-range:
+    6 check words) positions.  In each of the four rotations the detector tail still finds the rotation and
+    `getCorrectedParameterData` + field split still return (layers, data words) — by C04's `rs_corrects`
+    over GF(16). -/
+theorem mode_message_tolerates_errors (E : List Nat) (hE : E = refExpectedCornerBits)
+    (compact : Bool) (layers dw s : Nat)
+    (hl : 1 ≤ layers ∧ layers ≤ (if compact then 4 else 32))
+    (hd : 1 ≤ dw ∧ dw ≤ (if compact then 64 else 2048)) (hs : s < 4)
+    (mm' : List Bool) (hlen : mm'.length = if compact then 28 else 40)
+    (hdam : hamming (paramWords compact (fromBits (modeMessage compact layers dw)))
+        (paramWords compact (fromBits mm')) ≤ (if compact then 2 else 3)) :
+    getRotation E (sidesAt compact mm' s) (if compact then 10 else 14) = .ok s ∧
+    correctedParameters rsModel compact (parameterData compact (sidesAt compact mm' s) s) =
+      .ok (layers, dw) := by
+  subst hE
+  obtain ⟨hrot, hpd⟩ := mode_bits_inv compact mm' hlen s hs
+  refine ⟨hrot, ?_⟩
+  rw [hpd]
+  -- the reference word list, as a constant "decoder"
+  let c : RSDecoder := fun _ _ _ => .ok (paramWords compact (fromBits (modeMessage compact layers dw)))
+  have href := (mode_message_inv refExpectedCornerBits rfl c compact layers dw s hl hd hs rfl).2
+  rw [(mode_bits_inv compact (modeMessage compact layers dw) (modeMessage_length compact layers dw) s hs).2,
+    AztecModeRS.correctedParameters_of_rs c compact _ _ rfl] at href
+  rw [AztecModeRS.correctedParameters_of_rs rsModel compact (fromBits mm') _
+    (AztecModeRS.mode_rs_corrects compact layers dw (fromBits mm') hdam)]
+  exact href
 
 /-! ### non-vacuity: concrete instances of the hypotheses -/
 
